@@ -161,11 +161,11 @@ Theorem depolarizing_thirds p : dX (depolarizing p) == p / 3 /\ dY (depolarizing
   /\ 3 * dX (depolarizing p) == p.
 Proof. unfold depolarizing, of_xyz; cbn. repeat split; try reflexivity. field. Qed.
 Theorem bit_flip_spec p : 0 <= p <= 1 -> simplex (bit_flip p) /\ deq (bit_flip p) (mkD (1 - p) p 0 0).
-Proof. intros [H0 H1]. split; [apply of_xyz_simplex; lra|]. unfold deq, bit_flip, of_xyz; cbn. repeat split; try reflexivity. ring. Qed.
+Proof. intros [H0 H1]. split; [unfold bit_flip; apply of_xyz_simplex; lra|]. unfold deq, bit_flip, of_xyz; cbn. repeat split; try reflexivity. ring. Qed.
 Theorem phase_flip_spec p : 0 <= p <= 1 -> simplex (phase_flip p) /\ deq (phase_flip p) (mkD (1 - p) 0 0 p).
-Proof. intros [H0 H1]. split; [apply of_xyz_simplex; lra|]. unfold deq, phase_flip, of_xyz; cbn. repeat split; try reflexivity. ring. Qed.
+Proof. intros [H0 H1]. split; [unfold phase_flip; apply of_xyz_simplex; lra|]. unfold deq, phase_flip, of_xyz; cbn. repeat split; try reflexivity. ring. Qed.
 Theorem bit_phase_flip_spec p : 0 <= p <= 1 -> simplex (bit_phase_flip p) /\ deq (bit_phase_flip p) (mkD (1 - p) 0 p 0).
-Proof. intros [H0 H1]. split; [apply of_xyz_simplex; lra|]. unfold deq, bit_phase_flip, of_xyz; cbn. repeat split; try reflexivity. ring. Qed.
+Proof. intros [H0 H1]. split; [unfold bit_phase_flip; apply of_xyz_simplex; lra|]. unfold deq, bit_phase_flip, of_xyz; cbn. repeat split; try reflexivity. ring. Qed.
 
 (* --- biased depolarizing --- *)
 Lemma biased_lr_nonneg b p : 0 < b -> 0 <= p -> 0 <= biased_lr b p.
